@@ -208,13 +208,19 @@ CHECKS = {
     },
     "C16": {
         "family": "cron", "level": "proof", "modules": ["Gk.Props.C16"], "components": ["cron"],
-        "runs": lambda tier: [{"args": ["cron", "-n", str({"quick": 400, "thorough": 20000, "widen": 4000}[tier]), "-len", "40"]}],
+        "runs": lambda tier: [{"args": ["cron", "-n", str({"quick": 400, "thorough": 20000, "widen": 4000}[tier]), "-len", "40"]},
+                              {"args": ["cronconc", "-n", str({"quick": 300, "thorough": 6000, "widen": 1500}[tier])], "seed_off": 4}],
         "rule": "same histories as C15: every edit offers any subset for removal and any list of spare entries incl. "
                 "duplicates of kept / removed / other added identities and entries with undecodable mutator metadata, "
                 "re-offered after rejection; Mon C16 compares Schedule() and all cursors around every rejected edit; "
                 "a C15 monitor (one pending occurrence per stored entry, cursors move to the very next occurrence) "
                 "failing on a history that contains an edit counts for C16 too (an accepted edit must leave every "
-                "added entry at its first occurrence and every kept one untouched)",
+                "added entry at its first occurrence and every kept one untouched); `gkh cronconc`: one Pop and one "
+                "EditTask of a real CronStore race — every entry's Schedule is wrapped so that the Pop is parked inside "
+                "Schedule.Next (after the head left the heap, before its successor is pushed) while the edit (any subset "
+                "removed, same-identity twins of removed / kept entries, fresh entries) tries to complete; the observed "
+                "(popped occurrence, edit verdict, pending schedule) must equal one of the two sequential orders, computed "
+                "by running the same store sequentially on fresh identical worlds (monitor in the harness, relayed)",
         "extra_mon": {"C15": r"^edit "},
         "trusted_base": COMMON_TB, "assumptions": ["task ids (random UUIDs) are ignored"],
     },
@@ -251,13 +257,14 @@ CHECKS = {
                  "a send and removal racing a send are runtime behaviour sampled by the correspondence, not proved.",
     },
     **{pid: {
-        "family": "sched", "level": "proof", "modules": ["Gk.Props." + pid], "components": ["sched", "schedcron"],
+        "family": "sched", "level": "proof", "modules": ["Gk.Props." + pid],
+        "components": ["sched", "schedcron"] + (["corefault"] if pid == "C20" else []),
         "runs": (lambda pid: lambda tier: (lambda n: [
             {"args": ["sched", "-n", str(n), "-len", "25", "-slots", "0"] + (["-faults", "1"] if pid == "C20" else [])},
             {"args": ["sched", "-n", str(n), "-len", "25", "-slots", "0", "-faults", "2" if pid == "C20" else "1"], "seed_off": 50},
             {"args": ["sched", "-n", str(n), "-len", "20", "-slots", "0", "-ties"] + (["-faults", "1"] if pid == "C20" else []), "seed_off": 70},
             {"args": ["sched", "-cron", "-n", str(max(n // 3, 100)), "-len", "25", "-slots", "0"] + (["-faults", "1"] if pid == "C20" else []), "seed_off": 90},
-        ] + ([{"args": ["disp"]}] if pid == "C06" else []))({"quick": 500, "thorough": 20000, "widen": 3000}[tier]))(pid),
+        ] + ([{"args": ["disp"]}] if pid == "C06" else []) + ([{"args": ["corefault"]}] if pid == "C20" else []))({"quick": 500, "thorough": 20000, "widen": 3000}[tier]))(pid),
         "rule": "the real Scheduler over the real observable repository (in-memory + hook timer, virtual clock), a "
                 "call-logging proxy and a simulated dispatcher with 1..3 slots: random scripts of user mutations, "
                 "time advances, Step / Retry (driver policy: a step that reported an error is retried), completions "
@@ -268,7 +275,12 @@ CHECKS = {
                 "the cron configuration (Scheduler over VolatileTaskRepo over a real CronStore with EditTask injected "
                 "at call boundaries, also between volatileTaskRepo's Peek and Pop): every call, Peek / Pop answer, "
                 "returned state, work start, the clock and the pending schedule are replayed on Gk.CWorld (occurrence "
-                "ids matched by a checked bijection) and the monitors run on the implementation's own lines",
+                "ids matched by a checked bijection) and the monitors run on the implementation's own lines" +
+                ("; `gkh corefault` (exhaustive over a small family: 1..3 tasks due together / staggered / one later, 1..2 "
+                 "slots, every assignment of {none, error without effect, error AFTER effect} to the first MarkAsDispatched "
+                 "calls reaching the CORE repository below the wrapper and its timer hook): the driver runs to quiescence and "
+                 "the monitor of Gk/DrvCore.lean demands that nothing due is left scheduled or dispatched (finding D21; the "
+                 "World automaton has no action for a fault at that layer, so this run is monitor-only)" if pid == "C20" else ""),
         "trusted_base": COMMON_TB + ["the dispatcher is simulated (contract of def.Dispatcher; the real one is tied by C08/C09)",
                                      "goroutine scheduling inside Step's select and the event queue is sampled, not proved"],
         "assumptions": ["driver policy: StartTimer once; a step that reported an error is retried before stepping on "
